@@ -181,9 +181,14 @@ static int filter_assembly_str_fsa(const char unfiltered_str[],
       break;
     }
     // last printable ascii character
-    if (unfiltered_str[i] > '~')
-      AL_VERIF_FILTERED(unfiltered_str, filter_str, j, EXIT_FAILURE);
-    FAIL_IF_MSG(unfiltered_str[i] > '~', "Printable ascii characters only\n");
+    // (plain char may be signed: compare as unsigned so that bytes above 0x7f
+    // are caught as well)
+    if ((unsigned char)unfiltered_str[i] > '~')
+      AL_VERIF_FILTERED(unfiltered_str, filter_str, j, NA);
+    if ((unsigned char)unfiltered_str[i] > '~') {
+      fprintf(stderr, "assembyline: Printable ascii characters only\n");
+      return NA;
+    }
     i++;
   }
   AL_VERIF_FILTERED(unfiltered_str, filter_str, j, i);
@@ -199,6 +204,8 @@ static int str_to_instr(struct instr *instr_data, const char unfiltered_str[],
   char filter_str[FILTERED_STR_LEN] = {'\0'};
   // sanitize user input and copy filtered string to filter_str
   int ch_pos = filter_assembly_str_fsa(unfiltered_str, filter_str);
+  // the line contains a non-printable or non-ascii character
+  FAIL_IF(ch_pos == NA);
   // skip comments/macro
   while (unfiltered_str[ch_pos] != '\n' && unfiltered_str[ch_pos] != '\r' &&
          unfiltered_str[ch_pos] != '\0')
